@@ -242,6 +242,22 @@ var writers = []writer{
 		err := w.Write(&b, v)
 		return b.Bytes(), err
 	}},
+	{"sen.Writer.SEN(after Write)", func(v any, o *ojg.Options, _ int) ([]byte, error) {
+		// the same Writer instance right after streaming: the in-memory text must be complete
+		w := sen.Writer{Options: *o}
+		var sink bytes.Buffer
+		if err := w.Write(&sink, v); err != nil {
+			return nil, err
+		}
+		return []byte(w.SEN(v)), nil
+	}},
+	{"sen.String(pooled, after sen.Write)", func(v any, o *ojg.Options, _ int) ([]byte, error) {
+		var sink bytes.Buffer
+		if err := sen.Write(&sink, v); err != nil {
+			return nil, err
+		}
+		return []byte(sen.String(v)), nil
+	}},
 	{"pretty.SEN", func(v any, o *ojg.Options, salt int) ([]byte, error) {
 		return []byte(pretty.SEN(v, o, float64(widths[salt%5])+float64(depths[(salt/5)%4])/10, (salt/3)%2 == 0)), nil
 	}},
@@ -406,6 +422,14 @@ func run(c *mon.Ctx) {
 			cfg.Keys = nil
 		}
 		tree := cfg.Tree(r)
+		if i%50 == 3 {
+			// a text longer than the default WriteLimit
+			big := make([]any, 150+r.Intn(100))
+			for k := range big {
+				big[k] = fmt.Sprintf("element %d", k)
+			}
+			tree = map[string]any{"big": big, "t": tree}
+		}
 		if collide(tree) {
 			continue
 		}
